@@ -274,6 +274,15 @@ def check_add(c):
     eq(devs, "add.value", (r.ccsds_days, r.ms_of_day), (wd, wm), f"({c['days']},{c['ms']}) + {td!r}")
     if (r.ccsds_days, r.ms_of_day) == (wd, wm):
         check_views(devs, r, wd, wm, f"add.views.{route}")
+    if not devs and route in ("read_from_raw", "ctor", "unpack"):
+        # one reader object: the same octets decoded again after an addition give the decoded pair again (not the sum)
+        rd = cds.CdsShortTimestamp.empty()
+        rd.read_from_raw(raw)
+        rd += td
+        rd.read_from_raw(raw)
+        eq(devs, "add.then_same_octets_read_again", (rd.ccsds_days, rd.ms_of_day), (c["days"], c["ms"]))
+        if (rd.ccsds_days, rd.ms_of_day) == (c["days"], c["ms"]):
+            check_views(devs, rd, c["days"], c["ms"], "add.then_same_octets_read_again.views")
     if c.get("then") is not None and not devs:
         td2 = dt.timedelta(days=c["then"]["days"], seconds=c["then"]["seconds"], microseconds=c["then"]["us"])
         total2 = wd * MS_DAY + wm + td2.days * MS_DAY + td2.seconds * 1000 + td2.microseconds // 1000
